@@ -731,6 +731,32 @@ def fam_c07():
     add("spread-surplus-anon", [Try([P(ACall(Fn(["a"], [P(Id("a")), Ret(I(1))]), PV(1, L(I(7), I(8))), spread=True))], "e", [P(60)]), P(61), Ret(I(0))])
     add("spread-surplus-defer", [f1, FnStmt("d", [], [Defer(Call("f1", PV(1, L(I(7), I(8))), spread=True)), P(40), Ret(I(0))]), Try([E(Call("d"))], "e", [P(60)]), P(61), Ret(I(0))])
     add("spread-exact-fn2", [f2d, Try([P(Call("f2", PV(1, L(I(7), I(8))), spread=True))], "e", [P(60)]), P(61), Ret(I(0))])
+    # a Go function with typed parameters: an operand that cannot be converted for its parameter ends the evaluation of the operands after it
+    for badpos in (None, 0, 2):
+        for badval in ((S("x"), "str"), (L(I(1)), "list")):
+            if badpos is None and badval[1] != "str":
+                continue
+            args = [PV(j + 1, badval[0] if j == badpos else I(j + 1)) for j in range(3)]
+            tag = "ok" if badpos is None else "%s%d" % (badval[1], badpos)
+            add("go-typed-" + tag, [Try([E(Call("pt", *args))], "e", [P(60)]), P(61), Ret(I(0))])
+            add("go-typed-anon-" + tag, [Try([E(ACall(Id("pt"), *args))], "e", [P(60)]), P(61), Ret(I(0))])
+            add("go-typed-defer-" + tag, [FnStmt("d", [], [Defer(Call("pt", *args)), P(40), Ret(I(0))]), Try([E(Call("d"))], "e", [P(60)]), P(61), Ret(I(0))])
+            add("go-typed-nested-" + tag, [Try([P(L(PV(7, I(7)), Call("pt", *args), PV(8, I(8))))], "e", [P(60)]), P(61), Ret(I(0))])
+    add("go-typed-bad-then-bad", [Try([E(Call("pt", PV(1, S("x")), PV(2, I(2)), BAD))], "e", [P(60)]), P(61), Ret(I(0))])
+    add("go-typed-undefined-then-bad", [Try([E(Call("pt", BAD, PV(2, I(2)), PV(3, S("x"))))], "e", [P(60)]), P(61), Ret(I(0))])
+    # anonymous calls nested in the operands of anonymous calls (function values, map members, Go functions), on every call path
+    apre = [Let("fl", Fn(["a"], [Ret(Id("a"))], va=True)), Let("f5", Fn(["a", "b", "c", "d", "e"], [Ret(L(Id("a"), Id("b"), Id("e")))])), Let("f2", Fn(["a", "b"], [Ret(L(Id("a"), Id("b")))])),
+            Let("mf", M((S("first"), Fn(["a"], [Ret(Idx(Id("a"), I(0)))], va=True)), (S("list"), Fn(["a"], [Ret(Id("a"))], va=True)), (S("two"), Fn(["a", "b"], [Ret(L(Id("a"), Id("b")))]))))]
+    add("anon-nested-variadic", apre + [P(ACall(Id("fl"), ACall(Id("fl"), PV(1, I(1)), PV(2, I(2))), PV(3, I(3)))), Ret(I(0))])
+    add("anon-nested-variadic-short-inner", apre + [P(ACall(Id("fl"), ACall(Id("fl"), PV(1, I(1))), PV(2, I(2)), PV(3, I(3)))), Ret(I(0))])
+    add("anon-nested-five", apre + [P(ACall(Id("f5"), ACall(Id("f2"), PV(1, I(1)), PV(2, I(2))), PV(3, I(3)), PV(4, I(4)), ACall(Id("fl"), PV(5, I(5))), PV(6, I(6)))), Ret(I(0))])
+    add("anon-nested-member", apre + [P(ACall(Member(Id("mf"), "list"), ACall(Member(Id("mf"), "first"), PV(1, S("a")), PV(2, S("b"))), PV(3, S("c")))), Ret(I(0))])
+    add("anon-nested-member-two", apre + [P(ACall(Member(Id("mf"), "two"), ACall(Member(Id("mf"), "two"), PV(1, I(1)), PV(2, I(2))), ACall(Member(Id("mf"), "list"), PV(3, I(3))))), Ret(I(0))])
+    add("anon-nested-go", apre + [E(ACall(Id("pn"), ACall(Id("pv"), PV(1, I(1)), PV(2, I(2))), PV(3, I(3)), ACall(Id("fl"), PV(4, I(4)), PV(5, I(5))))), Ret(I(0))])
+    add("anon-nested-spread", apre + [P(ACall(Id("fl"), ACall(Id("fl"), PV(1, I(1)), PV(2, I(2))), PV(3, L(I(3), I(4))), spread=True)), Ret(I(0))])
+    add("anon-nested-deep", apre + [P(ACall(Id("fl"), ACall(Id("fl"), ACall(Id("fl"), PV(1, I(1)), PV(2, I(2))), PV(3, I(3))), PV(4, I(4)))), Ret(I(0))])
+    add("anon-nested-named-mix", apre + [FnStmt("nv", ["a"], [Ret(Id("a"))], va=True), P(Call("nv", ACall(Id("fl"), PV(1, I(1)), PV(2, I(2))), PV(3, I(3)))), P(ACall(Id("fl"), Call("nv", PV(4, I(4)), PV(5, I(5))), PV(6, I(6)))), Ret(I(0))])
+    add("anon-nested-defer", apre + [FnStmt("d", [], [Defer(ACall(Id("pn"), ACall(Id("fl"), PV(1, I(1)), PV(2, I(2))), PV(3, I(3)))), P(40), Ret(I(0))]), E(Call("d")), Ret(I(0))])
     # Go functions: fixed (pv), variadic (pn)
     for bad in (None, 0, 1):
         add("go-fixed-%s" % bad, [Try([P(Call("pv", *[BAD if j == bad else PV(j + 1, I(j + 1)) for j in range(2)]))], "e", [P(60)]), Ret(I(0))])
